@@ -277,6 +277,19 @@ def parallel_simulation(system, index, spec_json, seed):
     m.log.bus = None
 
 
+STUDY = {'ct': 1.0}       # a process-wide parameter of the user's study, changed between two calls
+
+
+def study_simulation(system, index, seed):
+    from simprocesd.model.factory_floor import Source, PartProcessor, Sink
+    random.seed(seed + index)
+    src = Source(name='S', cycle_time=0.5)
+    mc = PartProcessor(name='M', upstream=[src], cycle_time=STUDY['ct'])
+    snk = Sink(name='K', upstream=[mc])
+    system.simulate(20, print_summary=False)
+    system.h_study = (STUDY['ct'], snk.received_parts_count)
+
+
 def shift_action(scheduler, obj, time, state):
     if state:
         obj.restore_functionality()
@@ -772,6 +785,22 @@ def run(sh):
                     break
                 sh.count('parallel_results_compared', nsim)
                 sh.count('plain_parallel_results_compared', nsim)
+            if i % 2 == 0:
+                # two studies in one session, a process-wide parameter changed in between: the second call's workers
+                # see what the calling process sees
+                mpk = rng.choice([1, 2])
+                STUDY['ct'] = 1.0
+                System.simulate_multiple_times(study_simulation, 3, mpk, seed)
+                STUDY['ct'] = rng.choice([2.5, 4.0])
+                b_w = [x.h_study for x in System.simulate_multiple_times(study_simulation, 3, mpk, seed)]
+                b_0 = [x.h_study for x in System.simulate_multiple_times(study_simulation, 3, 0, seed)]
+                STUDY['ct'] = 1.0
+                if b_w != b_0:
+                    sh.violation('parallel_differs', f'second study of a session with max_processes={mpk}: results '
+                                 f'{b_w} differ from the in-process results {b_0} (a parameter of the calling process '
+                                 f'was changed between the two calls)', dict(case, max_processes=mpk), engine='parallel')
+                else:
+                    sh.count('second_studies_compared_with_in_process_runs')
             sh.case_done({'spec_hash': core.case_hash(spec), 'seed': seed, 'par': True}, len(set(refd)) > 1,
                          sample={'parallel': True, 'n': nsim, 'distinct_results': len(set(refd))})
         except Exception as e:
